@@ -1,13 +1,13 @@
 SPECIFICATION MCSpec
 CONSTANTS
-  Groups = {"g1","g2"}
-  Names = {"s1","s2"}
+  Groups = {"g1"}
+  Names = {"s1"}
   Dev = {}
   Cap = 0
   MaxLimit = 10000
   DefLimit = 1000
-  Acts = {"groups","relays","snaps"}
-  Nids = {"n1","n2"}
+  Acts = {"groups","gd","props","leaves","snaps"}
+  Nids = {}
   Epochs = {1}
   Ptrs = {}
   Relays = {"r1"}
@@ -26,9 +26,9 @@ CONSTANTS
   WelcomeStates = {"pending"}
   GdTypes = {"tree"}
   GdVals = {"t1"}
-  LeafVals = {"a"}
-  LeafStart = 0
-  MaxLeaf = 0
+  LeafVals = {"a","b"}
+  LeafStart = 8
+  MaxLeaf = 13
   PropRefs = {"r"}
   GlobKeys = {"k1"}
   Ats = {1}
@@ -39,5 +39,6 @@ CONSTANTS
 VIEW MCView
 INVARIANT TypeInv
 INVARIANT InvC10Plain
+INVARIANT InvC18
 PROPERTY PropC09Plain
 CHECK_DEADLOCK FALSE
